@@ -31,6 +31,18 @@ func CheckNoDirectories(paths []string) error {
 	return nil
 }
 
+// ResolveDir names the directory dest the way the kernel finds it: a
+// destination given as "<symlink>/.." is one place when it is opened and
+// another when its path is tidied up as text (filepath.Dir, path.Join), and
+// a handle whose Filename is built from it would have Copy, Move and Remove
+// act one level off later on.
+func ResolveDir(dest string) string {
+	if resolved, err := filepath.EvalSymlinks(dest); err == nil {
+		return resolved
+	}
+	return dest
+}
+
 func Copy(source, dest string) error {
 	in, err := os.Open(source)
 	if err != nil {
